@@ -1,4 +1,6 @@
 import SJ.Proofs.Tables
+import SJ.Proofs.F64Round
+import SJ.Proofs.RenderParse
 import SJ.Proofs.Escape
 import SJ.Proofs.WalkSafe
 import SJ.Proofs.MarshalExact
@@ -74,5 +76,46 @@ theorem C10_array_elements_agree (pj : PJ) (p e : Nat) :
       ∃ es, View.parse pj { lim := e, off := p + 1 } #[] (fuelOf pj) = .ok es ∧
         View.elemsMarshal pj es = .ok (render (.obj p e ms))) :=
   ⟨fun es a b => arrMarshal_arr pj p e es a b, fun ms a b c => elemsMarshal_obj pj p e ms a b c⟩
+
+
+open SJ.RenderParse SJ.Layout SJ.MarshalExact in
+/-- the float round trip that `RenderParse` assumes is the theorem of C18 -/
+theorem C10_floatRT : FloatRT := fun bits hfin => SJ.F64Round.appendFloat_roundtrip bits hfin
+
+open SJ.RenderParse SJ.Layout SJ.MarshalExact SJ.ParseDefs in
+/-- **The canonical text is valid JSON denoting the same document, and a fixed point.** For every abstract document
+    `v` whose root is an object or array, with well-formed UTF-8 strings and finite floats (`Clean`): the RFC grammar
+    accepts `renderJ v` as a document `v'` with the same nesting, member order, keys and strings byte for byte, and
+    numerically equal numbers (`SameDoc`: an integer-valued float may come back as an integer, a uint below 2^63 as an
+    int); and unless `v` contains the float −0.0, rendering `v'` again gives the same bytes. -/
+theorem C10_render_roundtrip (v : JVal) (hc : Clean v) (hroot : IsRoot v) :
+    ∃ v', Spec.containerText (renderJ v).toList = .accept v' ∧ SameDoc v v' ∧
+      (NoNegZero v → renderJ (ofSpec v') = renderJ v) := render_roundtrip C10_floatRT v hc hroot
+
+open SJ.RenderParse SJ.Layout SJ.MarshalExact SJ.WalkLayout in
+/-- **… for what `MarshalJSON` actually returns** (composition with `C10_marshal_exact`): the bytes the model's
+    `Iter.marshalBuf` writes for a located container on any tape (gaps anywhere) are accepted by the grammar as the
+    same document. -/
+theorem C10_marshal_reads_back (pj : PJ) (v : LVal) (i : Iter) (hok : Ok pj v) (hf : FloatsOk v) (hon : OnNode pj v i)
+    (hc : Clean (erase v)) (hroot : IsRoot (erase v)) :
+    ∃ txt v', Iter.marshalBuf pj i #[] = .ok txt ∧ Spec.containerText txt.toList = .accept v' ∧ SameDoc (erase v) v' :=
+  marshal_reads_back C10_floatRT pj v i hok hf hon hc hroot
+
+open SJ.RenderParse SJ.Layout SJ.ParseDefs in
+/-- **Several roots (ND)**: the newline-joined canonical texts are read back by the per-line grammar as the same
+    documents in order, and re-rendering is a fixed point (no −0.0). -/
+theorem C10_roots_roundtrip (vs : List JVal) (hne : vs ≠ []) (h : ∀ v ∈ vs, Clean v ∧ IsRoot v) :
+    (∃ l, Spec.ndText (renderJRoots vs).toList = .accept (.arr l) ∧ RootsRel NumSame vs l) ∧
+    ((∀ v ∈ vs, NoNegZero v) →
+      ∃ l, Spec.ndText (renderJRoots vs).toList = .accept (.arr l) ∧ renderJRoots (l.map ofSpec) = renderJRoots vs) :=
+  ⟨roots_read_back C10_floatRT vs hne h, fun hz => roots_fixed_point C10_floatRT vs hne h hz⟩
+
+open SJ.RenderParse SJ.Layout SJ.ParseDefs SJ.MarshalExact in
+/-- the documented exception (known finding D8), unconditionally: `[-0.0]` prints as `[-0]`, which is the integer 0
+    and prints as `[0]` -/
+theorem C10_negzero_not_fixed :
+    (renderJ (.arr (.cons (.float negZero 0) .nil))).toList = [91, 45, 48, 93] ∧
+    Spec.containerText [91, 45, 48, 93] = .accept (.arr [.num (.int 0)]) ∧
+    (renderJ (ofSpec (.arr [.num (.int 0)]))).toList = [91, 48, 93] := negZero_not_fixed
 
 end SJ.Properties.C10
